@@ -12,16 +12,18 @@ TRUSTED = simcheck.TRUSTED_SIM
 
 def run(ctx):
     seen = []
-    simcheck.run_sim_property(ctx, [], lambda r, w: simmon.mon_c18(r, w, seen),
+    seen38 = []
+    simcheck.run_sim_property(ctx, [], lambda r, w: simmon.mon_c18(r, w, seen, seen38),
                               "the frontier offered a final / scheduled / running task it must not offer, missed a released "
                               "task, or offered a task whose predecessors had not completed to a policy that does not plan ahead",
                               machine=False)
     ctx.cov.setdefault("input_distribution", {})["offers_matching_known_finding_F36"] = len(seen)
+    ctx.cov["input_distribution"]["offers_matching_known_finding_F38"] = len(seen38)
     for k in core.load_known():
-        if k.get("status") == "known" and k.get("property") == "C18" and k.get("id") == "F36":
+        if k.get("status") == "known" and k.get("property") == "C18" and k.get("id") in ("F36", "F38"):
             w = json.load(open(os.path.join(core.ROOT, k["witness"])))
             r = simcommon.run_worlds([w], jobs=1, chunk=1)[0]
-            hits = []
-            simmon.mon_c18(r, w, hits)
-            if hits:
-                ctx.known("F36", k["what_fails"])
+            h36, h38 = [], []
+            simmon.mon_c18(r, w, h36, h38)
+            if (h36 if k["id"] == "F36" else h38):
+                ctx.known(k["id"], k["what_fails"])
